@@ -299,7 +299,7 @@ class CancelScope(AbstractCancelScope):
             if delayed_task_cancel is not None and delayed_task_cancel.message == self.__cancellation_id():
                 del self.__delayed_task_cancel_dict[host_task]
                 delayed_task_cancel.handle.cancel()
-            delayed_task_cancel = None
+                delayed_task_cancel = None
 
             # The scope may have requested task cancellations which did not end up with an exception reaching this point
             # (e.g. the host task was shielded from cancellation all along). These requests must not outlive the scope.
@@ -307,26 +307,7 @@ class CancelScope(AbstractCancelScope):
                 self.__host_task_cancel_calls -= 1
                 host_task.uncancel()
 
-            if (
-                exc_val is None
-                and host_task.cancelling() > self.__host_task_cancelling
-                and host_task not in self.__delayed_task_cancel_dict
-                and not any(parent_scope.__cancel_called for parent_scope in self._inner_to_outer_task_scopes(host_task))
-            ):
-                # Somebody else requested a cancellation in the meantime, which was postponed (by a shield) together with
-                # the requests of this scope and will not be brought back with them: do it in their place.
-                # (a cancelled parent scope will take care of that by itself)
-                self._reschedule_delayed_task_cancel(host_task, None)
-
         self._check_pending_cancellation(host_task)
-
-        if (
-            self.__cancelled_caught
-            and host_task.cancelling() > self.__host_task_cancelling
-        ):
-            # Somebody else requested a cancellation while this scope was cancelled. There is only one CancelledError
-            # for both requests: it must not stop here.
-            self.__cancelled_caught = False
 
         return self.__cancelled_caught
 
